@@ -33,6 +33,9 @@ impl NameMap {
             // sibling = directory name + a character that sorts BEFORE '/' (an ordered map puts it between
             // the directory and the directory's children)
             "prefix2" => vec!["a", "a.b", "a-", "a b", "ab", "a+b"],
+            // ordinary names that merely LOOK like the overlay's bookkeeping names (".whiteout", "*_wo" are reserved;
+            // these are not)
+            "nearwo" => vec![".whiteout.md", ".whiteouts", "a_wo.txt", "_wox", ".whiteou", "wo_"],
             // dots in every position (".." inside a component is an ordinary name, only "." and ".." are special)
             "dotted" => vec!["..a", "x..tar.gz", "a.", "...", ".hidden", ".b."],
             "dotted2" => vec![".hidden", "a..", "x.tar.gz", "....", "b.c", ". ."],
